@@ -11,7 +11,7 @@ RUN_MODULE = "C11.Run"
 RUN_FN = "run_case"
 HARNESS_BIN = "c11"
 HARNESS_BINS = ["c11"]
-SHRINK_KEEP = ("new", "bad", "expect", "drain_check", "drain_check_x", "arrive", "peer_close")
+SHRINK_KEEP = ("new", "bad", "expect", "drain_check", "drain_check_x", "arrive", "peer_close", "sndbuf", "flush_check", "write")
 RULE = ("cases: delivery histories (d*: framed WorkerResponse stream, optionally with malformed frames in "
         "between, cut at seeded points into arrive/ev/turn triples), API-level op sequences (a*), writer "
         "sequences (w*), malformed-prefix sequences (m*); sizes straddle init, 2*init, max/2, max. "
@@ -226,6 +226,36 @@ def malformed_case(rng, cid):
     return Case(cid, ops, dict(msgs=1, chunks=2))
 
 
+def pressure_case(rng, cid):
+    """writer under back-pressure: minimal SO_SNDBUF, big messages, a peer that reads late and in pieces"""
+    init = rng.choice([64, 256, 1024])
+    mx = rng.choice([20000, 50000, 120000])
+    ops = [["new", init, mx], ["sndbuf"]]
+    for _ in range(rng.randint(3, 14)):
+        r = rng.random()
+        if r < 0.45:
+            sz = rng.choice([6, 100, 3000, 9000, 17000, mx - 8, rng.randint(6, mx // 2)])
+            ops.append(["write", payload_of_size(rng, max(6, min(sz, mx + 5)))])
+        elif r < 0.8:
+            ops.append(["ev", 0, 1])
+            ops.append(["writable_p"])
+        else:
+            ops.append(["peer_read", rng.choice([1, 100, 2000, 5000, 40000])])
+    ops.append(["flush_check"])
+    return Case(cid, ops, dict(msgs=0, chunks=0))
+
+
+def model_ops(case, out):
+    """ops handed to the model: a `writable_p` gets the byte count the kernel accepted on the implementation"""
+    ops = []
+    for op, ob in zip(case.ops, out["obs"] + [[]] * len(case.ops)):
+        if op[0] == "writable_p" and len(ob) >= 2 and ob[0] == "ok":
+            ops.append(["writable_p", ob[1]])
+        else:
+            ops.append(op)
+    return ops
+
+
 def blocking_case(rng, cid):
     """blocking-mode reads and writes (ctl client / worker start-up path): the whole stream is in the
     socket before the reads, so nothing waits except a deliberately incomplete last frame"""
@@ -258,6 +288,8 @@ def gen_cases(rng, tier):
             out.append(delivery_case(rng, "e%d" % i, True))
         elif i % 40 == 7:
             out.append(blocking_case(rng, "b%d" % i))
+        elif i % 40 == 17:
+            out.append(pressure_case(rng, "p%d" % i))
         elif r < 8:
             out.append(api_case(rng, "a%d" % i))
         elif r < 9:
